@@ -4,10 +4,17 @@
  *
  * SEQUENTIAL   ring heap|shm <nbytes>
  *   heap: muggle_shm_ringbuf_open runs unchanged, but muggle_shm_open is interposed
- *         (-Wl,--wrap) and hands out a heap block of EXACTLY sizeof(muggle_shm_ringbuf_t) +
- *         n*64 bytes, so ASan sees every access beyond the data area;
+ *         (-Wl,--wrap) and hands out a heap block of EXACTLY the number of bytes the library
+ *         asked for (the segment size it computed), so ASan sees every access outside the
+ *         segment; when the announced ring is smaller than the segment (4K rounding) the tail
+ *         behind sizeof(muggle_shm_ringbuf_t) + n*64 is poisoned, so every access beyond the
+ *         data area is seen as well;
  *   shm : the real SysV segment through shm.c (smoke test of key handling / attach / rm).
- *   ops: alloc <nbytes> | write <at> <len> <seed> | commit | fetch | rmove
+ *   first output line: open <n_cacheline> <n_bytes> <ready> <segment bytes asked from muggle_shm_open>
+ *                           <total_bytes field> | w r c
+ *   ops: alloc <nbytes> | alloccl <nbytes> <n_cacheline> | write <at> <len> <seed> | commit | fetch | rmove
+ *        (alloc = muggle_shm_ringbuf_w_alloc_bytes, alloccl = muggle_shm_ringbuf_w_alloc_cachelines with an
+ *        explicit footprint >= MUGGLE_SHM_RINGBUF_CAL_BYTES_CACHELINE(nbytes), e.g. fixed-size slots)
  *   usage protocol (same guards as coq/C08/Model.v [step]): length >= 1; write / commit only
  *   with an outstanding successful allocation and inside it; rmove only after a successful
  *   fetch; anything else prints "skip".
@@ -16,45 +23,70 @@
  * CONCURRENT   conc <n_cachelines> <locked 0|1> <kill -1|k> <tries>
  *              writer <len:tag> <len:tag> ...       (one line per writer thread)
  *              sched <spec>
- *   thread 0 = reader, threads 1.. = writers; run under harness/vsched.  kill k: the (single)
- *   writer stops for good right after its k-th visible (atomic) operation, wherever in the
- *   library code that is (vs_after is interposed and long-jumps out of the thread body).
- *   Output: the scheduler trace, then summary lines "F ...". */
+ *   thread 0 = reader, threads 1.. = writers; run under harness/vsched.  kill k: writer 1 stops for
+ *   good right after its k-th visible (atomic) operation, wherever in the library code that is
+ *   (vs_after is interposed and long-jumps out of the thread body) - also while it holds the write
+ *   lock.  With several writers the writer PROCESS has died at that instant: every other writer
+ *   thread stops right after its own next atomic operation (e.g. a failed test-and-set on the lock
+ *   its dead sibling holds).
+ *   Output: the scheduler trace, then summary lines "F ...".
+ *
+ * ATTACH       attach <nbytes> <tries>
+ *              sched <spec>
+ *   the `ready` hand-over: thread 0 = creating process (muggle_shm_ringbuf_open with
+ *   MUGGLE_SHM_FLAG_CREAT on a zero-filled segment), thread 1 = attaching process
+ *   (muggle_shm_ringbuf_open with MUGGLE_SHM_FLAG_OPEN on the same segment, then up to <tries> polls of
+ *   muggle_shm_ringbuf_is_ready; when it answers true the geometry is read and checked for consistency).
+ *   notes: creator "created <n_cacheline>"; attacher "geo <n_cacheline, or -1 when the fields it read are
+ *   inconsistent>" | "notready 0" | "gaveup 0". */
 #include "vdrv.h"
 #include "vsched/vsched.h"
+#include "muggle/c/base/utils.h" /* MUGGLE_ROUND_UP_POW_OF_2_MUL: shm_ring_buffer.h uses it without including it */
 #include "muggle/c/sync/shm_ring_buffer.h"
 #include "muggle/c/sync/spinlock.h"
 #include <setjmp.h>
 #include <unistd.h>
 #include <fcntl.h>
+#if defined(__SANITIZE_ADDRESS__)
+#include <sanitizer/asan_interface.h>
+#define C08_POISON(p, n) ASAN_POISON_MEMORY_REGION((p), (n))
+#define C08_UNPOISON(p, n) ASAN_UNPOISON_MEMORY_REGION((p), (n))
+#else
+#define C08_POISON(p, n) ((void)0)
+#define C08_UNPOISON(p, n) ((void)0)
+#endif
 
 static muggle_shm_ringbuf_t *rb;
 static muggle_shm_t shm;
-static int backing;            /* 0 none, 1 heap, 2 shm */
-static uint32_t want_n;        /* cache lines the heap block must hold */
+static int backing;            /* 0 none, 1 heap, 2 shm, 3 pre-allocated zero-filled segment (attach scenario) */
+static void *pre_block; static size_t pre_bytes;
 static void *heap_block;
+static size_t heap_bytes;      /* size of the heap block = the segment size muggle_shm_ringbuf_open asked for */
+static size_t data_avail;      /* bytes of the data area that lie inside the segment */
 static char keyfile[256];
 
 /* ---------------- interposed muggle_shm_open (heap backing) ---------------- */
 void *__real_muggle_shm_open(muggle_shm_t *s, const char *k_name, int k_num, int flag, uint32_t nbytes);
 void *__wrap_muggle_shm_open(muggle_shm_t *s, const char *k_name, int k_num, int flag, uint32_t nbytes)
 {
+	if (backing == 3) {
+		/* both "processes" map the same zero-filled segment */
+		memset(s, 0, sizeof(*s));
+		if (!pre_block || nbytes > pre_bytes) return NULL;
+		s->ptr = pre_block; s->nbytes = nbytes;
+		return pre_block;
+	}
 	if (backing != 1) return __real_muggle_shm_open(s, k_name, k_num, flag, nbytes);
 	memset(s, 0, sizeof(*s));
-	size_t sz = sizeof(muggle_shm_ringbuf_t) + (size_t)want_n * MUGGLE_CACHE_LINE_SIZE;
-	heap_block = aligned_alloc(MUGGLE_CACHE_LINE_SIZE, sz);
-	if (!heap_block) return NULL;
-	memset(heap_block, 0xEE, sz);
+	/* exactly the segment the library asked for: a ring that does not fit into it is an
+	 * out-of-bounds access under ASan, as it is a fault / corruption on a real segment */
+	heap_bytes = nbytes;
+	heap_block = NULL;
+	if (nbytes == 0 || posix_memalign(&heap_block, 4096, heap_bytes) != 0) { heap_block = NULL; return NULL; }
+	memset(heap_block, 0xEE, heap_bytes);
 	s->ptr = heap_block;
 	s->nbytes = nbytes;
 	return heap_block;
-}
-
-static uint32_t pow2_lines(uint32_t nbytes)
-{
-	uint32_t lines = (nbytes + MUGGLE_CACHE_LINE_SIZE - 1) / MUGGLE_CACHE_LINE_SIZE, n = 1;
-	while (n < lines) n <<= 1;
-	return n;
 }
 
 static char *data_base(void) { return (char *)muggle_shm_ringbuf_get_data(rb, 0); }
@@ -62,7 +94,8 @@ static char *data_base(void) { return (char *)muggle_shm_ringbuf_get_data(rb, 0)
 static void ring_close(void)
 {
 	if (backing == 2 && rb) { muggle_shm_detach(&shm); muggle_shm_rm(&shm); }
-	if (backing == 1 && heap_block) { free(heap_block); heap_block = NULL; }
+	if (backing == 1 && heap_block) { C08_UNPOISON(heap_block, heap_bytes); free(heap_block); heap_block = NULL; }
+	if (pre_block) { free(pre_block); pre_block = NULL; }
 	rb = NULL; backing = 0;
 }
 
@@ -70,7 +103,6 @@ static int ring_open(int kind, uint32_t nbytes)
 {
 	ring_close();
 	backing = kind;
-	want_n = pow2_lines(nbytes);
 	if (kind == 2) {
 		if (!keyfile[0]) {
 			snprintf(keyfile, sizeof(keyfile), "/verif/build/C08/shmkey.XXXXXX");
@@ -94,7 +126,15 @@ static int ring_open(int kind, uint32_t nbytes)
 		if (rb2) muggle_shm_detach(&shm2);
 		if (!same) { ring_close(); return -2; }
 	}
-	memset(data_base(), 0xAB, (size_t)rb->n_cacheline * MUGGLE_CACHE_LINE_SIZE);
+	{
+		size_t hdr = sizeof(muggle_shm_ringbuf_t), data = (size_t)rb->n_cacheline * MUGGLE_CACHE_LINE_SIZE;
+		size_t seg = (kind == 1) ? heap_bytes : (size_t)shm.nbytes;
+		data_avail = seg <= hdr ? 0 : (seg - hdr < data ? seg - hdr : data);
+		/* stale bytes are deterministic; only the part of the announced data area that exists is touched here */
+		if (kind == 1 || data_avail == data) memset(data_base(), 0xAB, data_avail);
+		/* behind the announced data area nothing may be touched */
+		if (kind == 1 && hdr + data < seg) C08_POISON((char *)heap_block + hdr + data, seg - hdr - data);
+	}
 	return 0;
 }
 
@@ -113,12 +153,23 @@ static void seq_line(char *line)
 	if (sscanf(line, "%31s %lld %lld %lld", op, &a, &b, &c) < 1) return;
 	if (!rb) { printf("noring\n"); return; }
 	if (strcmp(op, "alloc") == 0) {
-		if (a < 1 || a >= 2147483648LL) { printf("alloc skip"); state(); return; }
+		/* length 0 is passed on as it is (outside the property's sizes; model and code are compared on it) */
+		if (a < 0 || a >= 2147483648LL) { printf("alloc skip"); state(); return; }
 		void *p = muggle_shm_ringbuf_w_alloc_bytes(rb, (uint32_t)a);
 		if (p) {
 			cur_alloc = (char *)p; cur_nb = (uint32_t)a; have_alloc = 1;
 			printf("alloc %ld", (long)((char *)p - data_base()));
 		} else printf("alloc NULL");
+		state();
+	} else if (strcmp(op, "alloccl") == 0) {
+		/* explicit footprint: must hold the message (header + bytes, + the 2 lines the macro adds) and be < 2^31 */
+		long long need = (a >= 0 && a < 2147483648LL) ? (long long)MUGGLE_SHM_RINGBUF_CAL_BYTES_CACHELINE((uint64_t)a) : 0;
+		if (a < 0 || a >= 2147483648LL || b < need || b >= 2147483648LL) { printf("alloccl skip"); state(); return; }
+		void *p = muggle_shm_ringbuf_w_alloc_cachelines(rb, (uint32_t)a, (uint32_t)b);
+		if (p) {
+			cur_alloc = (char *)p; cur_nb = (uint32_t)a; have_alloc = 1;
+			printf("alloccl %ld", (long)((char *)p - data_base()));
+		} else printf("alloccl NULL");
 		state();
 	} else if (strcmp(op, "write") == 0) {
 		if (!have_alloc || a < 0 || b < 0 || a + b > (long long)cur_nb) { printf("write skip"); state(); return; }
@@ -136,7 +187,7 @@ static void seq_line(char *line)
 		fetched = 1;
 		printf("fetch %ld %u ", (long)((char *)p - data_base()), (unsigned)nb);
 		/* a garbage header must not make the driver itself read outside the data area */
-		if ((char *)p < data_base() || (size_t)((char *)p - data_base()) + nb > (size_t)rb->n_cacheline * MUGGLE_CACHE_LINE_SIZE) printf("oob");
+		if ((char *)p < data_base() || (size_t)((char *)p - data_base()) + nb > data_avail) printf("oob");
 		else for (uint32_t i = 0; i < nb; i++) printf("%02x", p[i]);
 		state();
 	} else if (strcmp(op, "rmove") == 0) {
@@ -156,22 +207,30 @@ static int nwriters, locked, kill_at, tries;
 static char sched[8192];
 static volatile int writers_done;
 static volatile long w_events;         /* visible operations of writer 1 so far */
-static jmp_buf kill_env;
-static int kill_armed;
+static jmp_buf kill_env[MAXW + 2];
+static int kill_armed[MAXW + 2];
+static volatile int proc_dead;         /* the writer process has died (writer 1 hit its kill point) */
 static long got_count, got_bad, sent_count, drop_count;
 
 void __real_vs_after(void);
 void __wrap_vs_after(void)
 {
-	if (kill_armed && vs_tid() == 1) {
+	int tid = vs_tid();
+	if (tid == 1 && kill_armed[1]) {
 		w_events++;
 		if (w_events == kill_at) {
 			/* the writer dies here, inside whatever library function it was executing; the
 			 * harness (not the dead writer) lets the reader know that no more will come */
-			kill_armed = 0;
+			kill_armed[1] = 0;
+			proc_dead = 1;
 			writers_done++;
-			longjmp(kill_env, 1);
+			longjmp(kill_env[1], 1);
 		}
+	} else if (tid >= 2 && tid < MAXW + 2 && kill_armed[tid] && proc_dead) {
+		/* a sibling thread of the dead writer: it stops right after this operation */
+		kill_armed[tid] = 0;
+		writers_done++;
+		longjmp(kill_env[tid], 1);
 	}
 	__real_vs_after();
 }
@@ -184,10 +243,11 @@ static void writer_thread(void *arg)
 {
 	wscript_t *s = (wscript_t *)arg;
 	muggle_spinlock_t *lk = muggle_shm_ringbuf_get_wlock(rb);
-	if (vs_tid() == 1 && kill_at >= 0) {
-		if (kill_at == 0) { writers_done++; return; }
-		if (setjmp(kill_env)) return;          /* killed: nothing more */
-		kill_armed = 1;
+	int me_ = vs_tid();
+	if (kill_at >= 0 && me_ >= 1 && me_ < MAXW + 2) {
+		if (me_ == 1 && kill_at == 0) { writers_done++; return; }
+		if (setjmp(kill_env[me_])) return;     /* killed: nothing more */
+		kill_armed[me_] = 1;
 	}
 	for (int i = 0; i < s->n; i++) {
 		int sent = 0;
@@ -205,6 +265,7 @@ static void writer_thread(void *arg)
 		}
 		if (!sent) { vs_note("drop 0"); drop_count++; }
 	}
+	if (me_ >= 1 && me_ < MAXW + 2) kill_armed[me_] = 0;
 	writers_done++;
 	vs_note("wdone 0");
 }
@@ -242,7 +303,9 @@ static void conc_run(void)
 	vs_reset();
 	vs_set_schedule(sched);
 	vs_set_budget(60000);
-	writers_done = 0; w_events = 0; kill_armed = 0; got_count = got_bad = sent_count = drop_count = 0;
+	writers_done = 0; w_events = 0; got_count = got_bad = sent_count = drop_count = 0;
+	memset(kill_armed, 0, sizeof(kill_armed));
+	proc_dead = (kill_at == 0);            /* killed before its first operation: dead from the start */
 	vs_name(&rb->write_cursor, "wcur");
 	vs_name(&rb->read_cursor, "rcur");
 	vs_name(&rb->write_lock, "wlock");
@@ -251,6 +314,59 @@ static void conc_run(void)
 	int st = vs_run();
 	printf("F got=%ld bad=%ld w=%u r=%u\n", got_count, got_bad,
 		   (unsigned)rb->write_cursor, (unsigned)rb->read_cursor);
+	if (st != 0) {
+		printf("END\n");
+		fflush(stdout);
+		_exit(77);
+	}
+}
+
+/* ---------------- the ready hand-over (attach) ---------------- */
+static uint32_t at_nbytes; static int at_tries;
+static muggle_shm_t shm_c, shm_a;
+
+static void creator_thread(void *arg)
+{
+	(void)arg;
+	muggle_shm_ringbuf_t *r = muggle_shm_ringbuf_open(&shm_c, "heap", 1, MUGGLE_SHM_FLAG_CREAT, at_nbytes);
+	vs_note("created %u", r ? (unsigned)r->n_cacheline : 0u);
+}
+
+static void attacher_thread(void *arg)
+{
+	(void)arg;
+	muggle_shm_ringbuf_t *r = muggle_shm_ringbuf_open(&shm_a, "heap", 1, MUGGLE_SHM_FLAG_OPEN, 0);
+	int done = 0;
+	for (int t = 0; t < at_tries && !done; t++) {
+		if (r && muggle_shm_ringbuf_is_ready(r)) {
+			/* an attaching process now uses the geometry: plain reads */
+			uint32_t n = r->n_cacheline;
+			int ok = n >= 1 && r->n_bytes == n * MUGGLE_CACHE_LINE_SIZE && r->cached_remain == n - 1 &&
+				r->write_cursor == 0 && r->read_cursor == 0 &&
+				(size_t)r->total_bytes >= sizeof(muggle_shm_ringbuf_t) + (size_t)n * MUGGLE_CACHE_LINE_SIZE;
+			vs_note("geo %ld", ok ? (long)n : -1L);
+			done = 1;
+		} else {
+			vs_note("notready 0");
+			vs_yield_point("apoll");
+		}
+	}
+	if (!done) vs_note("gaveup 0");
+}
+
+static void attach_run(void)
+{
+	if (!pre_block) { printf("F openfail\n"); return; }
+	muggle_shm_ringbuf_t *r = (muggle_shm_ringbuf_t *)pre_block;
+	vs_reset();
+	vs_set_schedule(sched);
+	vs_set_budget(20000);
+	vs_name(&r->ready, "ready");
+	vs_name(&r->magic, "magic");
+	vs_spawn(creator_thread, NULL);
+	vs_spawn(attacher_thread, NULL);
+	int st = vs_run();
+	printf("F attach n=%u ready=%u\n", (unsigned)r->n_cacheline, (unsigned)r->ready);
 	if (st != 0) {
 		printf("END\n");
 		fflush(stdout);
@@ -275,7 +391,8 @@ static void case_line(char *line)
 		mode = 1;
 		int rc = ring_open(strcmp(k, "shm") == 0 ? 2 : 1, (uint32_t)nbytes);
 		if (rc != 0) { printf("open fail %d\n", rc); return; }
-		printf("open %u %u %d", (unsigned)rb->n_cacheline, (unsigned)rb->n_bytes, muggle_shm_ringbuf_is_ready(rb) ? 1 : 0);
+		printf("open %u %u %d %u %u", (unsigned)rb->n_cacheline, (unsigned)rb->n_bytes, muggle_shm_ringbuf_is_ready(rb) ? 1 : 0,
+			   (unsigned)shm.nbytes, (unsigned)rb->total_bytes);
 		state();
 		return;
 	}
@@ -285,6 +402,21 @@ static void case_line(char *line)
 		if (sscanf(line, "%*s %lld %d %d %d", &n, &a, &b, &c) < 1 || n < 1 || n > 4096) { printf("F badcase\n"); return; }
 		mode = 2; locked = a; kill_at = b; tries = c < 1 ? 1 : c;
 		if (ring_open(1, (uint32_t)n * MUGGLE_CACHE_LINE_SIZE) != 0) printf("F openfail\n");
+		return;
+	}
+	if (strcmp(op, "attach") == 0) {
+		long long nb = 0; int tr = 1;
+		if (sscanf(line, "%*s %lld %d", &nb, &tr) < 1 || nb < 1 || nb > (1 << 22)) { printf("F badcase\n"); return; }
+		mode = 3; at_nbytes = (uint32_t)nb; at_tries = tr < 1 ? 1 : tr;
+		ring_close();
+		backing = 3;
+		pre_bytes = 2 * (size_t)nb + 16384;
+		if (posix_memalign(&pre_block, 4096, pre_bytes) != 0) pre_block = NULL;
+		if (pre_block) memset(pre_block, 0, pre_bytes);
+		return;
+	}
+	if (mode == 3) {
+		if (strcmp(op, "sched") == 0) snprintf(sched, sizeof(sched), "%s", line + 6);
 		return;
 	}
 	if (mode == 2) {
@@ -306,6 +438,7 @@ static void case_line(char *line)
 static void case_end(void)
 {
 	if (mode == 2) conc_run();
+	if (mode == 3) attach_run();
 	ring_close();
 }
 
